@@ -783,7 +783,13 @@ impl Property for C18 {
             };
             let (s1, s2) = (shape(n_in1, 3), shape(2, 1));
             let plan1 = if y.chance(0.6) { worldp::benign_plan(&mut y, &s1, 0.5) } else { Vec::new() };
-            let plan2 = if y.chance(0.6) { worldp::benign_plan(&mut y, &s2, 0.5) } else { Vec::new() };
+            let mut plan2 = if y.chance(0.6) { worldp::benign_plan(&mut y, &s2, 0.5) } else { Vec::new() };
+            let mut plan1 = plan1;
+            if y.chance(0.2) {
+                // faults on the calls the program really makes (rehearsed on a copy of the disk)
+                plan1 = vec![PlanEntry { idx: y.next_u64(), kind: PlanKind::Measured(0) }];
+                plan2 = vec![PlanEntry { idx: y.next_u64(), kind: PlanKind::Measured(0) }];
+            }
             let stale: Vec<String> = ["oc.csv", "of.csv", "r1.json", "r2.json"].iter().filter(|_| d.chance(0.35)).map(|n| n.to_string()).collect();
             let crash_first = if c.chance(0.25) { Some((n_in1 * 4) as u64 + c.below(9)) } else { None };
             Some(ProcPart {
